@@ -681,6 +681,67 @@ def translate_config(cfg_tree, lib_tree):
     return out
 
 
+# ---------------------------------------------------------------- operators/py_builtins.py
+ATOMS_OV = {
+    'f in SUPPORTED_BUILTINS': 'CAtom AInSupportedBuiltins',
+    'any((f is b for b in SUPPORTED_BUILTINS))': 'CAtom AInSupportedBuiltins',
+    "getattr(f, '__name__', None) in BUILTIN_FUNCTIONS_MAP": 'CAtom ANameInOverloadMap',
+    'f.__name__ in BUILTIN_FUNCTIONS_MAP': 'CAtom ANameInOverloadMap',
+}
+
+
+def translate_builtins(tree, fname='py_builtins.py'):
+    out = {}
+    ov = _find_fn(tree, 'overload_of', fname)
+    if [a.arg for a in ov.args.args] != ['f'] or ov.args.defaults:
+        _fail(fname, ov, 'overload_of signature')
+    body = _nodoc(ov)
+
+    def ov_ret(st):
+        if isinstance(st, ast.Return) and st.value is not None:
+            s = U(st.value)
+            if s == 'BUILTIN_FUNCTIONS_MAP[f.__name__]':
+                return 'OvMapped'
+            if s == 'f':
+                return 'OvSelf'
+        _fail(fname, st, 'overload_of result `%s`' % U(st))
+    if len(body) == 1 and isinstance(body[0], ast.Return) and \
+            U(body[0].value) == "BUILTIN_FUNCTIONS_MAP.get(getattr(f, '__name__', None), f)":
+        # dict.get with default: the name alone selects the overload
+        ents = [('CAtom ANameInOverloadMap', 'OvMapped'), ('CTrue', 'OvSelf')]
+    else:
+        ents, term = Flattener(fname, ATOMS_OV, ov_ret).flat(body, 'CTrue')
+        if not term:
+            _fail(fname, ov, 'overload_of may fall off its end')
+    out['overload'] = ents
+    sup = keys = None
+    for n in tree.body:
+        if isinstance(n, ast.Assign) and len(n.targets) == 1 and isinstance(n.targets[0], ast.Name):
+            t = n.targets[0].id
+            if t == 'SUPPORTED_BUILTINS':
+                if not (isinstance(n.value, ast.Tuple) and all(isinstance(e, ast.Name) for e in n.value.elts)):
+                    _fail(fname, n, 'SUPPORTED_BUILTINS must be a tuple of builtin names')
+                sup = [e.id for e in n.value.elts]
+            elif t == 'BUILTIN_FUNCTIONS_MAP':
+                if not isinstance(n.value, ast.Dict):
+                    _fail(fname, n, 'BUILTIN_FUNCTIONS_MAP must be a dict display')
+                keys = []
+                for k, v in zip(n.value.keys, n.value.values):
+                    if not (isinstance(k, ast.Constant) and isinstance(k.value, str) and isinstance(v, ast.Name)
+                            and v.id == k.value + '_'):
+                        _fail(fname, k or n, 'BUILTIN_FUNCTIONS_MAP entry must be \'name\': name_')
+                    keys.append(k.value)
+    if sup is None or keys is None:
+        raise Untranslatable('untranslatable: py_builtins.py: SUPPORTED_BUILTINS / BUILTIN_FUNCTIONS_MAP not found')
+    import builtins as _b
+    for nme in sup:
+        if not hasattr(_b, nme):
+            raise Untranslatable('untranslatable: py_builtins.py: SUPPORTED_BUILTINS lists %s which is not a builtin' % nme)
+    out['supported'] = sup
+    out['map_keys'] = keys
+    return out
+
+
 def coq_str(s):
     return '"' + s.replace('"', '""') + '"'
 
@@ -692,6 +753,7 @@ def translate(repo):
     api = translate_api(parse('malt/impl/api.py'))
     conv = translate_conversion(parse('malt/impl/conversion.py'))
     cfg = translate_config(parse('malt/core/config.py'), parse('malt/core/config_lib.py'))
+    blt = translate_builtins(parse('malt/operators/py_builtins.py'))
     o = []
     o.append('(* GENERATED on every run by tools/translate/c13_policy.py from malt/impl/api.py, malt/impl/conversion.py,')
     o.append('   malt/core/config.py, malt/core/config_lib.py -- do not edit *)')
@@ -721,6 +783,10 @@ def translate(repo):
     o.append('Definition rules_gen : list (rule_action * string) :=\n  [%s].' % ';\n   '.join(
         '(%s, %s)' % (a, coq_str(p)) for a, p in cfg['rules']))
     o.append('Definition matches_gen : list match_alt := [%s].' % '; '.join(cfg['matches']))
+    o.append('(* py_builtins.overload_of, SUPPORTED_BUILTINS, keys of BUILTIN_FUNCTIONS_MAP *)')
+    o.append('Definition overload_gen : list (cond * overload_result) :=\n  %s.' % emit_dl(blt['overload']))
+    o.append('Definition supported_builtins_gen : list string := [%s].' % '; '.join(coq_str(s) for s in blt['supported']))
+    o.append('Definition overload_map_gen : list string := [%s].' % '; '.join(coq_str(s) for s in blt['map_keys']))
     return '\n'.join(o) + '\n'
 
 
